@@ -38,14 +38,15 @@ theorem facts_ladder_table :
 
 /-- the requests of one schedule probe: request `i` runs for its duration and returns a value,
 or never ends by itself -/
-def probeItems : Nat → List (Nat × Bool) → List TItem
+def probeItems : Nat → List (Nat × Bool × Nat) → List TItem
   | _, [] => []
-  | i, (d, never) :: rest =>
-    ⟨⟨i, .request, false, if never then .overruns else .returns (.value i)⟩, d⟩ :: probeItems (i + 1) rest
+  | i, (d, never, arr) :: rest =>
+    ⟨⟨i, .request, false, if never then .overruns else .returns (.value i)⟩, d, arr⟩ ::
+      probeItems (i + 1) rest
 
 /-- **Tie of the schedule to the running code.**  On every row of the observed schedule table -
 real sessions with 1, 2 and 3 slots, with and without a throttle sleep, given 3 to 5 requests at
-once - `schedule` predicts the instant at which every request completed (its handler reached its
+once or one after the other - `schedule` predicts the instant at which every request completed (its handler reached its
 outcome, or the processing timeout answered for it), in the observed order. -/
 theorem facts_schedule_table :
     (∀ row ∈ Facts.C03.scheduleTable,
@@ -416,18 +417,18 @@ theorem replies_order_independent (cfg : Cfg) (a b : List Item) (h : a.Perm b)
 
 /-- **The schedule is complete and respects the deadline**: the completion order is a
 rearrangement, ascending in time, of one completion per arrival; every completion is the
-handler's own outcome strictly before the processing timeout, or an overrun exactly at it -
+handler's own outcome strictly before the processing timeout (counted from the arrival), or an
+overrun exactly at it -
 whether the time went on the handler, on the throttle sleep or on waiting for a slot. -/
 theorem schedule_complete (tm : Timing) (tis : List TItem) :
     (schedule tm tis).Perm (completions tm (List.replicate tm.slots 0) tis) ∧
     (schedule tm tis).Pairwise (fun a b => a.1 ≤ b.1) ∧
     (completions tm (List.replicate tm.slots 0) tis).length = tis.length ∧
     (∀ p ∈ (completions tm (List.replicate tm.slots 0) tis).zip tis, Completes tm p.1 p.2) ∧
-    (∀ ev ∈ schedule tm tis, ev.1 ≤ tm.deadline) := by
+    (∀ ev ∈ schedule tm tis, ∃ ti ∈ tis, Completes tm ev ti) := by
   refine ⟨sortEv_perm _, sortEv_sorted _, completions_length _ _ _, completions_pointwise _ _ _, ?_⟩
   intro ev hev
-  obtain ⟨ti, _, hc⟩ := completions_of_mem tm tis _ ev ((sortEv_perm _).mem_iff.mp hev)
-  rcases hc with h | h <;> omega
+  exact completions_of_mem tm tis _ ev ((sortEv_perm _).mem_iff.mp hev)
 
 theorem clean_overrun {cfg : Cfg} (it : Item) : clean cfg (overrun it) := by
   constructor
@@ -450,7 +451,7 @@ theorem count_singles_t (tis : List TItem) :
   | nil => rfl
   | cons ti rest ih => simp only [List.map_cons, List.filter_cons, shape] at ih ⊢; split <;> simp [ih]
 
-/-- **Timed lifting.**  All requests arrive together; `slots` handlers run at once, each after
+/-- **Timed lifting.**  Requests arrive at any instants; `slots` handlers run at once, each after
 the throttle sleep; none of the behaviours is a reply-and-disconnect.  Then whatever the
 durations: message processing survives, nothing is lost, the single requests get exactly one
 response each, and each request is answered with the table's reply if its handler finished
@@ -462,9 +463,9 @@ theorem timed_session_survives (cfg : Cfg) (tm : Timing) (tis : List TItem)
     (runTimed .repaired cfg tm tis).replies.length =
       (tis.filter fun ti => !ti.item.batch && ti.item.kind == .request).length ∧
     (∀ ti ∈ tis, ti.item.kind = .request → ti.item.batch = false →
-      ((∃ t, t < tm.deadline ∧ (t, ti.item) ∈ schedule tm tis) ∧
+      ((∃ t, t < ti.arr + tm.deadline ∧ (t, ti.item) ∈ schedule tm tis) ∧
         (ti.item.id, textReply cfg ti.item.outcome) ∈ (runTimed .repaired cfg tm tis).replies) ∨
-      ((tm.deadline, overrun ti.item) ∈ schedule tm tis ∧
+      ((ti.arr + tm.deadline, overrun ti.item) ∈ schedule tm tis ∧
         (ti.item.id, Reply.error cfg.serverBusy msgBusy) ∈ (runTimed .repaired cfg tm tis).replies)) := by
   have hperm := sortEv_perm (completions tm (List.replicate tm.slots 0) tis)
   -- every completion is clean
@@ -554,8 +555,8 @@ theorem timed_answered_unless_cut (cfg : Cfg) (tm : Timing) (tis : List TItem) (
 /-- non-vacuity: two slots; request 1 replies and disconnects at 9 s; request 0 (7 s) completed
 before and is answered, request 2 (would complete at 11 s) is cut off -/
 example :
-    let tis : List TItem := [⟨⟨0, .request, false, .returns (.value 1)⟩, 7⟩,
-      ⟨⟨1, .request, false, .replyAndDisconnect (.value 2)⟩, 9⟩, ⟨⟨2, .request, false, .returns (.value 3)⟩, 4⟩]
+    let tis : List TItem := [⟨⟨0, .request, false, .returns (.value 1)⟩, 7, 0⟩,
+      ⟨⟨1, .request, false, .replyAndDisconnect (.value 2)⟩, 9, 0⟩, ⟨⟨2, .request, false, .returns (.value 3)⟩, 4, 0⟩]
     (schedule { slots := 2 } tis).map (fun ev => (ev.1, ev.2.id)) = [(7, 0), (9, 1), (11, 2)] ∧
     (runTimed .repaired {} { slots := 2 } tis).replies = [(0, .result 1), (1, .result 2)] ∧
     (runTimed .repaired {} { slots := 2 } tis).lost = [2] := by decide
@@ -579,8 +580,8 @@ theorem timed_errors (cfg : Cfg) (tm : Timing) (tis : List TItem)
 /-- non-vacuity: one slot, three requests - the first finishes (7 s), the second would need
 until 33 s and overruns in its handler, the third is still queued when its timeout expires -/
 example :
-    let tis : List TItem := [⟨⟨0, .request, false, .returns (.value 1)⟩, 7⟩,
-      ⟨⟨1, .request, false, .raisesRpcError 5 1 0⟩, 26⟩, ⟨⟨2, .request, false, .returns (.value 3)⟩, 1⟩]
+    let tis : List TItem := [⟨⟨0, .request, false, .returns (.value 1)⟩, 7, 0⟩,
+      ⟨⟨1, .request, false, .raisesRpcError 5 1 0⟩, 26, 0⟩, ⟨⟨2, .request, false, .returns (.value 3)⟩, 1, 0⟩]
     (∀ ti ∈ tis, clean {} ti.item) ∧
     (schedule { slots := 1 } tis).map (fun ev => (ev.1, ev.2.id)) = [(7, 0), (30, 1), (30, 2)] ∧
     (runTimed .repaired {} { slots := 1 } tis).replies =
